@@ -20,7 +20,8 @@ PROP = dict(
              'acquire, a stress round, a client round or a search',
         trusted=['x86-TSO / real parallelism are outside the Lean model: XCHG is a full barrier and sync/atomic is sequentially '
                  'consistent (Go memory model, Intel SDM) are trusted; the stress run is the only evidence at that level',
-                 'the 13-instruction ISA semantics in lean/Firefly/Model/Spin.lean (XCHGL atomic, CALL clobbers all registers)',
+                 'the 15-instruction ISA semantics in lean/Firefly/Model/Spin.lean (XCHGL with memory and LOCK-prefixed read-modify-write '
+                 'atomic; XORL/DECL/CMPXCHGL on memory WITHOUT LOCK are a read step and a write step; CALL clobbers all registers)',
                  'the Plan 9 assembly / go/ast reader in harness/sync/c08_test.go (fails on anything it does not know)',
                  'the client scanner harness/sync/c08_clients_test.go: syntactic (go/parser, no go/types) scan of every non-test file '
                  'under kernel/ for sync.Spinlock declarations and lock calls; fails on embedded/pointer/container locks, locks '
@@ -30,7 +31,8 @@ PROP = dict(
                      'found under kernel/ by the regenerated skeletons + clients_disciplined; assumed only for code outside kernel/',
                      'yieldFn, when set, does not touch the lock word (the harness hook that does is modelled as another thread)',
                      'sequentially consistent interleaving of atomic steps'],
-        level_text='Lean theorems about the small-step machine running the REGENERATED archAcquireSpinlock instruction list and '
+        level_text='tie_intact (the fact generator could translate every instruction, prefix, routine and client of the current source; '
+                   'otherwise the generated file names the reason and nothing checks). Lean theorems about the small-step machine running the REGENERATED archAcquireSpinlock instruction list and '
                    'the regenerated TryToAcquire/Release atomic-op bodies, for every number of threads, every schedule, every '
                    'lock address, attempts value and nil/non-nil yieldFn: mutex, lock_word, acquire_returns_only_when_free, '
                    'try_exact, release_reacquirable, handover_visible, deadlock_free (inductive invariant indexed by pc); '
